@@ -290,6 +290,24 @@ class World:
         for r in attached:
             if r.parent is None:
                 self.check_upward(r, kind)
+        # ... also ACROSS attached trees: another tree's root is no ancestor
+        roots = [r for r in attached if r.parent is None][:6]
+        for r1 in roots:
+            inner = [c for _f, _i, c in children_of(r1)][:2]
+            inner += [c2 for c in inner[:1] for _f, _i, c2 in children_of(c)][:1]
+            for r2 in roots:
+                if r2 is r1:
+                    continue
+                for n in inner:
+                    self.stats.probes["cross_tree_upward_checked"] += 1
+                    if r2.is_ancestor(n):
+                        raise self.viol("C18.5 is_ancestor", "C18.5:is_ancestor:cross-tree", f"after {kind}: the root of ANOTHER attached tree claims to be an ancestor of a {cname(n)}")
+                    try:
+                        gd: Any = n.get_depth(relative_to=r2)
+                    except ValueError:
+                        gd = "ValueError"
+                    if gd != "ValueError":
+                        raise self.viol("C18.5 relative-depth-non-ancestor", "C18.5:relative-depth-non-ancestor:cross-tree", f"after {kind}: {cname(n)}.get_depth(relative_to=the root of another attached tree) = {gd} instead of ValueError")
 
     def check_content(self, root: Any, kind: str) -> None:
         rb = self.rebuild(root)
